@@ -178,11 +178,10 @@ func (g *newGenNoAlias) New(c gengo.Context) gengo.Generator {
 // --- generators without New: gengo creates them with reflect.New, so the
 // identity (which script) has to live in the Go type ------------------------
 
-var noNewSlots [4]*proto.GenScript
+var noNewSlots [8]*proto.GenScript
 
 type slotCore struct {
 	core
-	slot int
 }
 
 func (g *slotCore) bind(slot int) *core {
@@ -192,15 +191,26 @@ func (g *slotCore) bind(slot int) *core {
 	return &g.core
 }
 
-type noNew0 struct{ slotCore }
-type noNew1 struct{ slotCore }
-type noNew2 struct{ slotCore }
-type noNew3 struct{ slotCore }
+// slots 0-3 implement AliasGenerator, 4-7 do not.
+type (
+	noNew0 struct{ slotCore }
+	noNew1 struct{ slotCore }
+	noNew2 struct{ slotCore }
+	noNew3 struct{ slotCore }
+	noNew4 struct{ slotCore }
+	noNew5 struct{ slotCore }
+	noNew6 struct{ slotCore }
+	noNew7 struct{ slotCore }
+)
 
 func (g *noNew0) Name() string { return g.bind(0).Name() }
 func (g *noNew1) Name() string { return g.bind(1).Name() }
 func (g *noNew2) Name() string { return g.bind(2).Name() }
 func (g *noNew3) Name() string { return g.bind(3).Name() }
+func (g *noNew4) Name() string { return g.bind(4).Name() }
+func (g *noNew5) Name() string { return g.bind(5).Name() }
+func (g *noNew6) Name() string { return g.bind(6).Name() }
+func (g *noNew7) Name() string { return g.bind(7).Name() }
 
 func (g *noNew0) GenerateType(c gengo.Context, t *types.Named) error {
 	return g.bind(0).GenerateType(c, t)
@@ -214,19 +224,56 @@ func (g *noNew2) GenerateType(c gengo.Context, t *types.Named) error {
 func (g *noNew3) GenerateType(c gengo.Context, t *types.Named) error {
 	return g.bind(3).GenerateType(c, t)
 }
+func (g *noNew4) GenerateType(c gengo.Context, t *types.Named) error {
+	return g.bind(4).GenerateType(c, t)
+}
+func (g *noNew5) GenerateType(c gengo.Context, t *types.Named) error {
+	return g.bind(5).GenerateType(c, t)
+}
+func (g *noNew6) GenerateType(c gengo.Context, t *types.Named) error {
+	return g.bind(6).GenerateType(c, t)
+}
+func (g *noNew7) GenerateType(c gengo.Context, t *types.Named) error {
+	return g.bind(7).GenerateType(c, t)
+}
 
-// slots 0 and 1 implement AliasGenerator, 2 and 3 do not.
 func (g *noNew0) GenerateAliasType(c gengo.Context, t *types.Alias) error {
 	return g.bind(0).generateAlias(c, t)
 }
 func (g *noNew1) GenerateAliasType(c gengo.Context, t *types.Alias) error {
 	return g.bind(1).generateAlias(c, t)
 }
+func (g *noNew2) GenerateAliasType(c gengo.Context, t *types.Alias) error {
+	return g.bind(2).generateAlias(c, t)
+}
+func (g *noNew3) GenerateAliasType(c gengo.Context, t *types.Alias) error {
+	return g.bind(3).generateAlias(c, t)
+}
+
+func newSlot(slot int) gengo.Generator {
+	switch slot {
+	case 0:
+		return &noNew0{}
+	case 1:
+		return &noNew1{}
+	case 2:
+		return &noNew2{}
+	case 3:
+		return &noNew3{}
+	case 4:
+		return &noNew4{}
+	case 5:
+		return &noNew5{}
+	case 6:
+		return &noNew6{}
+	}
+	return &noNew7{}
+}
 
 func buildGenerators(scripts []proto.GenScript) ([]gengo.Generator, error) {
 	var out []gengo.Generator
-	aliasSlots := []int{0, 1}
-	plainSlots := []int{2, 3}
+	aliasSlots := []int{0, 1, 2, 3}
+	plainSlots := []int{4, 5, 6, 7}
 	for i := range noNewSlots {
 		noNewSlots[i] = nil
 	}
@@ -250,16 +297,7 @@ func buildGenerators(scripts []proto.GenScript) ([]gengo.Generator, error) {
 			slot := (*pool)[0]
 			*pool = (*pool)[1:]
 			noNewSlots[slot] = s
-			switch slot {
-			case 0:
-				out = append(out, &noNew0{})
-			case 1:
-				out = append(out, &noNew1{})
-			case 2:
-				out = append(out, &noNew2{})
-			case 3:
-				out = append(out, &noNew3{})
-			}
+			out = append(out, newSlot(slot))
 		case "real":
 			gs := gengo.GetRegisteredGenerators(s.Name)
 			if len(gs) != 1 {
